@@ -150,9 +150,33 @@ def _pair_judge(pid, tag, stage, cases, nchunks=None):
     return out
 
 
+def _suite_trace(tag, stage):
+    """Run the recorded test suite; the trace of the stage's component, or None."""
+    exe = core.build_suite()
+    if exe is None:
+        return None, 'the wrapped test binary could not be built'
+    os.makedirs(os.path.join(core.OUT, 'trace'), exist_ok=True)
+    traces, rc = core.run_suite(exe, os.path.join(core.OUT, 'trace', tag))
+    mine = traces.get(stage['comp'])
+    for c, p in traces.items():
+        if p != mine:
+            os.remove(p)
+    if mine is None:
+        return None, 'the suite recorded no %s events (exit status %d)' % (stage['comp'], rc)
+    return mine, rc
+
+
 def _judge_cases(pid, tag, stage, cases, nchunks=None):
     if stage.get('mode'):
         return _pair_judge(pid, tag, stage, cases, nchunks)
+    if stage['kind'] == 'suite':
+        trace, why = _suite_trace(tag, stage)
+        if trace is None:
+            raise core.MachineryError('suite stage: ' + str(why))
+        j = core.judge(stage['trace'], trace, tag, nchunks=1)
+        if not os.environ.get('VERIF_KEEP'):
+            os.remove(trace)
+        return j
     exe = core.build(stage.get('variant', 'plain'))
     trace = os.path.join(core.OUT, 'trace', tag + '.ndjson')
     os.makedirs(os.path.dirname(trace), exist_ok=True)
@@ -176,7 +200,10 @@ def run(pid, tier, seed, t0):
     distinct = set()
     all_fails = []       # (stage tag, cases path, episode, line, monitors)
     notes = 0
+    only = os.environ.get('VERIF_ONLY_STAGE')        # self-tests: run one stage of the check (never used by registered commands)
     for si, st in enumerate(P['stages']):
+        if only and st['name'] != only:
+            continue
         tag = '%s.%s.%s' % (pid, tier, st['name'])
         cases = os.path.join(core.OUT, 'cases', tag + '.ndjson')
         info = {'name': st['name']}
@@ -192,7 +219,24 @@ def run(pid, tier, seed, t0):
             core.log('%s: Apalache discharged %d obligations of %s (%.0fs)' % (pid, st['obligations'], st['script'], time.time() - t1))
             cov['stages'].append(info)
             continue
-        if st['kind'] == 'mc':
+        if st['kind'] == 'suite':
+            # the repository's own tests, recorded at the public entry points and judged like every other trace
+            trace, why = _suite_trace(tag + '.list', st)
+            if trace is None:
+                info['skipped'] = str(why)
+                core.log('%s: %s skipped: %s' % (pid, st['name'], why))
+                cov['stages'].append(info)
+                continue
+            eps = [eid for eid, _ in _episodes(trace)]
+            os.remove(trace)
+            with open(cases, 'w') as f:
+                for eid in eps:
+                    f.write(json.dumps({'id': eid, 'comp': 'suite-' + st['comp'], 'test': eid.split('-')[1] if eid.count('-') >= 2 else eid,
+                                        'ops': []}, separators=(',', ':')) + '\n')
+            n = len(eps)
+            info['source'] = "the repository's gtest suite, calls recorded with ld --wrap (harness/suite/suite_wrap.cpp)"
+            core.log('%s: recorded test suite: %d %s episodes' % (pid, n, st['comp']))
+        elif st['kind'] == 'mc':
             cfg = st['cfg'][tier]
             extra = ''
             if st.get('simulate'):
@@ -333,8 +377,8 @@ def replay(pid, path):
     P = PROPS[pid]
     first = json.loads(open(path).readline())
     comp = first.get('comp')
-    runnable = [s for s in P['stages'] if s.get('trace', '-') != '-' and s['kind'] in ('mc', 'gen')]
-    st = next((s for s in runnable if s.get('comp') == comp), None) or next((s for s in runnable if s.get('comp') == '*'), runnable[0])
+    runnable = [s for s in P['stages'] if s.get('trace', '-') != '-' and s['kind'] in ('mc', 'gen', 'suite')]
+    st = next((s for s in runnable if (('suite-' + s['comp']) if s['kind'] == 'suite' else s.get('comp')) == comp), None) or next((s for s in runnable if s.get('comp') == '*'), runnable[0])
     j = _judge_cases(pid, pid + '.replay', st, path, nchunks=1)
     mine = _select(pid, j['fails'])
     for f in mine:
